@@ -18,7 +18,7 @@ FUNCTIONS = ["precomputed_io.PrecomputedIO.__init__/validate_chunk_coords/read_c
              "chunk_encoding.CompressedSegmentationEncoder.encode/decode", "_compressed_segmentation.*",
              "chunk_encoding.JpegChunkEncoder.encode/decode", "_jpeg.encode_chunk/decode_chunk"]
 STUBS = ["np/struct/bytearray stand-ins as in C02", "min -> fork-free if-then-else minimum (validate_chunk_coords)",
-         "accessor = in-memory dictionary accessor (file/sharded accessors are covered by C12/C04/C05/C01)"]
+         "accessor = in-memory dictionary accessor; harness 'accessors': the real file and sharded accessors on the model file system"]
 ASSUMPTIONS = ["voxel_offset == [0,0,0] (the only value the code accepts)"]
 EXPLANATION = ("validate_chunk_coords is run on symbolic volume sizes and six symbolic coordinates and compared with the "
                "grid predicate; chunks with symbolic voxels are written and read back through PrecomputedIO (same and "
@@ -33,7 +33,7 @@ BOUNDS = {
 }
 OUTSIDE = ["the accuracy of the JPEG codec itself (libjpeg through Pillow is compiled code): harness 'jpeg' replaces it by a lossy "
            "stand-in that keeps the image geometry and returns every sample within 6 grey levels", "voxel_offset other than zero",
-           "file-system / sharded accessors (C12, C04, C05, C01)"]
+           "HTTP accessors (read-only: C14)"]
 
 
 def _info(dtype, C, size, cs_list, encoding, block=None, key="k0"):
@@ -75,6 +75,17 @@ def configs(tier, seed):
         out.append(dict(harness="unsafe", dt_chunk=dt_chunk, dt_data=dt_data, cost=1))
     for k in ((1, 2, 3) if tier == "quick" else (1, 2, 3, 4)):
         out.append(dict(harness="history", k=k, dtype="uint16", cost=k))
+    acc_cases = [
+        dict(dtype="uint16", C=1, size=[3, 2, 2], cs=[2, 2, 2], encoding="raw", wopts=dict(flat=True, gzip=False), ropts=dict(flat=False, gzip=True)),
+        dict(dtype="uint8", C=2, size=[2, 3, 1], cs=[2, 2, 1], encoding="raw", wopts=dict(flat=False, gzip=True), ropts=dict(flat=True, gzip=False)),
+        dict(dtype="uint32", C=1, size=[2, 2, 2], cs=[2, 2, 1], encoding="compressed_segmentation", block=[2, 2, 1], wopts=dict(flat=False, gzip=True)),
+        dict(dtype="uint8", C=1, size=[4, 2, 2], cs=[2, 2, 2], encoding="raw", sharding=[1, 1, 0, "raw", "gzip"], order=[1, 0]),
+        dict(dtype="uint16", C=1, size=[4, 4, 2], cs=[2, 2, 2], encoding="raw", sharding=[2, 0, 0, "gzip", "raw"], order=[3, 0, 2, 1]),
+        dict(dtype="uint64", C=1, size=[3, 1, 2], cs=[1, 1, 1], encoding="compressed_segmentation", block=[1, 1, 1], sharding=[0, 1, 1, "gzip", "gzip"]),
+        dict(dtype="float32", C=2, size=[6, 2, 2], cs=[2, 2, 2], encoding="raw", sharding=[1, 0, 0, "raw", "raw"], order=[2, 1, 0]),
+    ]
+    for a in acc_cases:
+        out.append(dict(harness="accessors", cost=3, wall=900, **a))
     for C, size, cs, plane in ((1, (3, 2, 2), (2, 2, 2), "xy"), (1, (2, 3, 2), (2, 2, 2), "xz"), (3, (2, 2, 3), (2, 2, 2), "xy"),
                                (3, (3, 2, 2), (2, 1, 2), "xz")) + (((1, (4, 3, 3), (3, 3, 3), "xz"), (3, (3, 3, 3), (2, 3, 2), "xy"))
                                                                    if tier == "thorough" else ()):
@@ -227,6 +238,47 @@ def H_identity(ctx, cfg):
     for cc, chunk in written.items():
         _same(ctx, io.read_chunk("k0", cc), chunk, "same-handle")
         _same(ctx, io2.read_chunk("k0", cc), chunk, "fresh-handle")
+
+
+def H_accessors(ctx, cfg):
+    """The same identity through the real accessors on the model file system: file accessor (flat/deep, gzip on/off,
+    read back under another configuration) and sharded accessor (any sharding spec incl. different index/data encodings);
+    chunks are written in the configured order, the accessor is closed, a fresh accessor reads everything back."""
+    from . import _vol as V
+    W = V.World()
+    dtype, C, size, cs = cfg["dtype"], cfg["C"], cfg["size"], cfg["cs"]
+    sh = cfg.get("sharding")
+    info = V.make_info(dtype, C, size, cs, cfg["encoding"], cfg.get("block"), sh)
+    url = "/mfs/ds"
+    W.put_info(url, info)
+    wopts = dict(cfg.get("wopts") or {})
+    ropts = dict(cfg.get("ropts") or wopts)
+    acc = W.accessor(url, wopts)
+    io = W.pio.get_IO_for_existing_dataset(acc)
+    chunks = _chunks_of(size, cs)
+    order = [chunks[i] for i in cfg.get("order") or range(len(chunks))]
+    written, allin = {}, []
+    for i, cc in enumerate(order):
+        shape = (C, cc[5] - cc[4], cc[3] - cc[2], cc[1] - cc[0])
+        chunk = SArray.fresh(shape, dtype, f"c{i}")
+        allin += [x.__zexpr__() for x in chunk.a.ravel()]
+        written[cc] = chunk
+        io.write_chunk(chunk, "full", cc)
+    ctx.input("voxels", allin)
+    W.finish()                                   # end of the writing process (sharded accessors flush at exit)
+    ctx.sample(dict(chunks=len(written), files=sorted(W.env.fs.files)[:8]))
+    io2 = W.pio.get_IO_for_existing_dataset(W.accessor(url, ropts))
+    for cc, chunk in written.items():
+        try:
+            got = io2.read_chunk("full", cc)
+        except Exception as e:
+            if type(e).__name__ in ("OutsideModel", "Inconclusive", "PathAbort"):
+                raise
+            ctx.fail("fresh-handle-reads-the-chunk", detail=f"chunk {cc}: {type(e).__name__}: {e}", exc=e)
+            continue
+        if not isinstance(got, SArray):
+            got = SArray.from_concrete(got)
+        _same(ctx, got, chunk, "fresh-accessor")
 
 
 class _LossyCodec:
@@ -431,6 +483,48 @@ def replay(cfg, cex):
         except AssertionError:
             return acc.calls != 0, "rejected"
         return True, f"write_chunk stored off-grid chunk {coords} for size {size}, chunk sizes {cfg['cs_list']}"
+    if h == "accessors":
+        import tempfile
+        from . import _vol as V
+        acc_mod = load.mod("accessor")
+        dtype, C, size, cs = cfg["dtype"], cfg["C"], cfg["size"], cfg["cs"]
+        sh = cfg.get("sharding")
+        info = V.make_info(dtype, C, size, cs, cfg["encoding"], cfg.get("block"), sh)
+        wopts = dict(cfg.get("wopts") or {})
+        ropts = dict(cfg.get("ropts") or wopts)
+        vox = list(inp.get("voxels") or [])
+        with tempfile.TemporaryDirectory() as td:
+            acc = acc_mod.get_accessor_for_url(td, dict(wopts, **({"sharding": "%d,%d,%d" % tuple(sh[:3])} if sh else {})))
+            if sh:
+                acc.info = info
+            try:
+                io = pio.get_IO_for_new_dataset(info, acc)
+                chunks = _chunks_of(size, cs)
+                order = [chunks[i] for i in cfg.get("order") or range(len(chunks))]
+                written = {}
+                for cc in order:
+                    shape = (C, cc[5] - cc[4], cc[3] - cc[2], cc[1] - cc[0])
+                    n = shape[0] * shape[1] * shape[2] * shape[3]
+                    raw, vox = (vox[:n] + [0] * n)[:n], vox[n:]
+                    if dtype == "float32":
+                        chunk = real_np.array(raw, dtype=real_np.uint32).view(real_np.float32).reshape(shape)
+                    else:
+                        chunk = real_np.array(raw, dtype=real_np.uint64).astype(dtype).reshape(shape)
+                    written[cc] = chunk
+                    io.write_chunk(chunk, "full", cc)
+                if sh:
+                    acc.close()
+            except Exception as e:
+                return True, f"writing through the accessor raised {type(e).__name__}: {e}"
+            io2 = pio.get_IO_for_existing_dataset(acc_mod.get_accessor_for_url(td, ropts))
+            for cc, chunk in written.items():
+                try:
+                    got = io2.read_chunk("full", cc)
+                except Exception as e:
+                    return True, f"chunk {cc}: a fresh accessor ({ropts or 'sharded ' + str(sh)}) cannot read it back: {type(e).__name__}: {e}"
+                if got.shape != chunk.shape or got.dtype != chunk.dtype or got.tobytes() != chunk.tobytes():
+                    return True, f"chunk {cc}: wrote {chunk.ravel().tolist()} read {got.ravel().tolist()} ({got.dtype}, {got.shape})"
+        return False, "identity holds through the real accessors"
     if h == "identity":
         dtype, C, size, cs = cfg["dtype"], cfg["C"], cfg["size"], cfg["cs"]
         info = _info(dtype, C, size, [cs], cfg["encoding"], cfg["block"])
